@@ -145,32 +145,50 @@ theorem C12LR_error_hook : ∀ dg ∈ classes, dg.1.errorProductions = 0 ∧
 
 /-! ## non-vacuity: a real cell card through the extracted CellParser automaton
 
-`5 1 -2.7 (1:-2) #3 imp:n,p=1 u=2 $ shell` as `CellLexer` tokenises it (token types, by id); the reduction
-sequence is the one the real `CellParser` performed on this card (recorded by `tools/vlib/lrlib.py`). -/
+`5 1 -2.7 (1:-2) #3 imp:n,p=1 u=2 $ shell` as `CellLexer` tokenises it.  Everything is pinned BY NAME (token
+types, left-hand sides of the reductions): state, token and production NUMBERS change whenever the grammar is
+edited, names do not.  The reduction sequence is the one the real `CellParser` performed on this card (recorded by
+`tools/vlib/lrlib.py`). -/
 
-def exampleCellTokens : List Nat :=
-  [20, 31, 20, 31, 20, 31, 2, 20, 6, 20, 3, 31, 9, 20, 31, 14, 6, 27, 5, 27, 7, 20, 31, 14, 7, 20, 31, 10]
+def tokIds (d : LrTables.LrDump) (names : List String) : List Nat := names.map fun n => (symId d n).getD 0
 
+def exampleCellTokens : List Nat := tokIds LrTables.cellParser
+  ["NUMBER", "SPACE", "NUMBER", "SPACE", "NUMBER", "SPACE", "(", "NUMBER", ":", "NUMBER", ")", "SPACE",
+   "COMPLEMENT", "NUMBER", "SPACE", "KEYWORD", ":", "PARTICLE", ",", "PARTICLE", "=", "NUMBER", "SPACE",
+   "KEYWORD", "=", "NUMBER", "SPACE", "DOLLAR_COMMENT"]
+
+/-- the reductions of the model on the example card -/
 def exampleCellReductions : List Nat :=
-  [93, 75, 93, 75, 93, 83, 7, 30, 27, 13, 11, 10, 30, 27, 13, 12, 29, 27, 13, 93, 30, 26, 25, 93, 14, 11, 53, 46,
-   102, 104, 102, 103, 44, 56, 95, 93, 83, 86, 34, 98, 100, 53, 46, 56, 95, 93, 89, 83, 86, 34, 98, 99, 5]
+  match parse (ofDump LrTables.cellParser) 200 exampleCellTokens with
+  | .accept ps => ps
+  | _ => []
 
-example : exampleCellTokens.map (symName LrTables.cellParser) =
-    ["NUMBER", "SPACE", "NUMBER", "SPACE", "NUMBER", "SPACE", "(", "NUMBER", ":", "NUMBER", ")", "SPACE",
-     "COMPLEMENT", "NUMBER", "SPACE", "KEYWORD", ":", "PARTICLE", ",", "PARTICLE", "=", "NUMBER", "SPACE",
-     "KEYWORD", "=", "NUMBER", "SPACE", "DOLLAR_COMMENT"] := by decide
+/-- left-hand side (by name) of a production of the dump -/
+def lhsName (d : LrTables.LrDump) (p : Nat) : String := symName d ((d.prods.getD p []).headD 0)
 
 theorem exampleCell_parse :
-    parse (ofDump LrTables.cellParser) 200 exampleCellTokens = .accept exampleCellReductions := by decide +kernel
+    parse (ofDump LrTables.cellParser) 200 exampleCellTokens = .accept exampleCellReductions ∧
+    exampleCellReductions.map (lhsName LrTables.cellParser) =
+      ["padding", "identifier_phrase", "padding", "identifier_phrase", "padding", "number_phrase", "material",
+       "geometry_factory", "geometry_factor", "geometry_term", "geometry_expr", "union", "geometry_factory",
+       "geometry_factor", "geometry_term", "geometry_expr", "geometry_factory", "geometry_factor", "geometry_term",
+       "padding", "geometry_factory", "geometry_factor", "geometry_term", "padding", "geometry_term", "geometry_expr",
+       "data_prefix", "classifier", "part", "particle_type", "part", "particle_type", "classifier", "equals_sign",
+       "param_seperator", "padding", "number_phrase", "numerical_phrase", "number_sequence", "parameter",
+       "parameters", "data_prefix", "classifier", "equals_sign", "param_seperator", "padding", "padding",
+       "number_phrase", "numerical_phrase", "number_sequence", "parameter", "parameters", "cell"] ∧
+    0 ∉ exampleCellTokens := by decide +kernel
 
 /-- the hypotheses of `C12LR_sound` / `C12LR_montepy` are satisfiable by a real card, and the conclusion follows -/
 example : Cfg.Der Grammar.cellParser.productions "cell" (exampleCellTokens.map (symName LrTables.cellParser)) :=
   C12LR_montepy (LrTables.cellParser, Grammar.cellParser) (by simp [classes]) exampleCellTokens exampleCellReductions
-    (by decide) (run_sound _ 200 _ _ exampleCell_parse (by simp))
+    exampleCell_parse.2.2 (run_sound _ 200 _ _ exampleCell_parse.1 (by simp))
 
 /-- the machine rejects too: the same card without its geometry stops at the KEYWORD (13 tokens unread) -/
-example : parse (ofDump LrTables.cellParser) 200 ([20, 31, 20, 31, 20, 31] ++ exampleCellTokens.drop 15) =
-    .reject [93, 75, 93, 75, 93, 83] 13 := by decide +kernel
+example : (match parse (ofDump LrTables.cellParser) 200 (exampleCellTokens.take 6 ++ exampleCellTokens.drop 15) with
+    | .reject reds k => (reds.map (lhsName LrTables.cellParser), k)
+    | _ => ([], 0)) =
+    (["padding", "identifier_phrase", "padding", "identifier_phrase", "padding", "number_phrase"], 13) := by decide +kernel
 
 /-! ## the reductions are a right-most derivation -/
 
@@ -179,7 +197,7 @@ theorem C12LR_rightmost : ∀ (t : Tables), TablesOK t → ∀ toks ps : List Na
   fun _ hok _ _ h0 hr => accepted_rightmost hok h0 hr
 
 example : RmDeriv (ofDump LrTables.cellParser) exampleCellReductions [LrTables.cellParser.start] exampleCellTokens :=
-  C12LR_rightmost _ ⟨_, ok_cell⟩ _ _ (by decide) (run_sound _ 200 _ _ exampleCell_parse (by simp))
+  C12LR_rightmost _ ⟨_, ok_cell⟩ _ _ exampleCell_parse.2.2 (run_sound _ 200 _ _ exampleCell_parse.1 (by simp))
 
 /-! ## completeness on a regular fragment: void cells with a parenthesis-free geometry
 
@@ -194,15 +212,16 @@ tables); the theorem is an induction on the list of blocks. -/
 
 def cellT : Tables := ofDump LrTables.cellParser
 
-/-- token ids of the CellParser dump (checked against the name table below) -/
-def tNUMBER : Nat := 20
-def tSPACE : Nat := 31
-def tNULL : Nat := 19
-def tCOLON : Nat := 6
-def tCOMPLEMENT : Nat := 9
+/-- token ids of the CellParser dump, looked up BY NAME -/
+def tok (n : String) : Nat := (symId LrTables.cellParser n).getD 0
+def tNUMBER : Nat := tok "NUMBER"
+def tSPACE : Nat := tok "SPACE"
+def tNULL : Nat := tok "NULL"
+def tCOLON : Nat := tok ":"
+def tCOMPLEMENT : Nat := tok "COMPLEMENT"
 
 theorem geo_token_names : [tNUMBER, tSPACE, tNULL, tCOLON, tCOMPLEMENT].map (symName LrTables.cellParser) =
-    ["NUMBER", "SPACE", "NULL", ":", "COMPLEMENT"] := by decide
+    ["NUMBER", "SPACE", "NULL", ":", "COMPLEMENT"] := by decide +kernel
 
 def geoAtoms : List (List Nat) := [[tNUMBER], [tCOMPLEMENT, tNUMBER]]
 def geoSeps : List (List Nat) := [[tSPACE], [tCOLON], [tSPACE, tCOLON], [tCOLON, tSPACE], [tSPACE, tCOLON, tSPACE]]
@@ -210,10 +229,6 @@ def geoSeps : List (List Nat) := [[tSPACE], [tCOLON], [tSPACE, tCOLON], [tCOLON,
 def geoBlocks : List (List Nat) := geoSeps.flatMap fun s => geoAtoms.map fun a => s ++ a
 def geoLas : List Nat := [tSPACE, tCOLON]
 def geoPrefix : List Nat := [tNUMBER, tSPACE, tNULL, tSPACE]
-
-/-- settled configurations (state stack, the lookahead it was settled for) after an atom -/
-def geoStates : List (List Nat × Nat) :=
-  [([28, 17, 4, 0], tSPACE), ([27, 17, 4, 0], tCOLON), ([68, 39, 27, 17, 4, 0], tSPACE)]
 
 /-- number of steps until `w` is consumed and the machine is about to shift the token after it -/
 def settleN (t : Tables) : Nat → Config → Nat → Option Nat
@@ -257,6 +272,29 @@ theorem accepts_run {t : Tables} {c : Config} (h : accepts t c = true) : ∃ ps,
   · next ps hr => exact ⟨ps, run_sound t 200 c _ hr (by simp)⟩
   · cases h
 
+/-- the settled configuration `w` (followed by lookahead `la'`) leads to from stack `G` -/
+def reachState (t : Tables) (G w : List Nat) (la' : Nat) : Option (List Nat × Nat) :=
+  match settleN t 80 ⟨G, w ++ [la']⟩ 0 with
+  | none => none
+  | some n =>
+    match stepsN t n ⟨G, w ++ [la']⟩ with
+    | some (c', _) => if c'.input == [la'] then some (c'.stack, la') else none
+    | none => none
+
+/-- close a set of settled configurations under all blocks (a block must start with the settled lookahead) -/
+def geoClosure : Nat → List (List Nat × Nat) → List (List Nat × Nat)
+  | 0, S => S
+  | f + 1, S =>
+    let new := S.flatMap fun s => geoBlocks.flatMap fun b =>
+      if b.head? == some s.2 then geoLas.filterMap (reachState cellT s.1 b) else []
+    let S' := (S ++ new).eraseDups
+    if S'.length == S.length then S else geoClosure f S'
+
+/-- settled configurations (state stack, the lookahead it was settled for) after an atom: COMPUTED from the extracted
+    tables (state numbers change with every edit of the grammar), starting from the card's first atom -/
+def geoStates : List (List Nat × Nat) :=
+  geoClosure 8 ((geoAtoms.flatMap fun a => geoLas.filterMap (reachState cellT [0] (geoPrefix ++ a))).eraseDups)
+
 /-- the closure test: every block that starts with the lookahead a state was settled for leads into `geoStates`
     for both possible next lookaheads, and is accepted when nothing follows -/
 def geoClosed : Bool :=
@@ -272,11 +310,13 @@ def geoStart : Bool :=
 
 theorem geoStart_ok : geoStart = true := by decide +kernel
 
+theorem geoBlocks_shape : (geoBlocks.all fun b => match b with | la :: _ => geoLas.contains la | [] => false) = true ∧
+    ((geoPrefix :: geoAtoms ++ geoBlocks).all fun w => !w.contains 0) = true ∧ geoStates.length = 3 := by decide +kernel
+
 theorem geoBlock_head {b : List Nat} (hb : b ∈ geoBlocks) : ∃ la rest, b = la :: rest ∧ la ∈ geoLas := by
-  simp only [geoBlocks, geoSeps, geoAtoms, List.flatMap_cons, List.flatMap_nil, List.map_cons, List.map_nil,
-    List.cons_append, List.nil_append, List.append_nil, List.mem_cons, List.not_mem_nil, or_false] at hb
-  rcases hb with rfl | rfl | rfl | rfl | rfl | rfl | rfl | rfl | rfl | rfl <;>
-    exact ⟨_, _, rfl, by simp [geoLas]⟩
+  have := (List.all_eq_true.1 geoBlocks_shape.1) b hb
+  match b, this with
+  | la :: rest, h => exact ⟨la, rest, rfl, by simpa using h⟩
 
 theorem prepend_accept (reds ps : List Nat) : Res.prepend reds (.accept ps) = .accept (reds ++ ps) := by
   induction reds with
@@ -350,18 +390,14 @@ theorem C12LR_flat_geometry_sentences : ∀ (a : List Nat) (bs : List (List Nat)
     Cfg.Der Grammar.cellParser.productions "cell" ((geoPrefix ++ a ++ bs.flatten).map (symName LrTables.cellParser)) := by
   intro a bs ha hall
   obtain ⟨ps, hr⟩ := C12LR_complete_flat_geometry a bs ha hall
+  have hz := List.all_eq_true.1 geoBlocks_shape.2.1
   have h0 : 0 ∉ geoPrefix ++ a ++ bs.flatten := by
     intro hm
     simp only [List.mem_append, List.mem_flatten] at hm
     rcases hm with (hm | hm) | ⟨b, hb, hm⟩
-    · simp [geoPrefix, tNUMBER, tSPACE, tNULL] at hm
-    · simp only [geoAtoms, List.mem_cons, List.not_mem_nil, or_false] at ha
-      rcases ha with rfl | rfl <;> simp [tNUMBER, tCOMPLEMENT] at hm
-    · have hb' := hall b hb
-      simp only [geoBlocks, geoSeps, geoAtoms, List.flatMap_cons, List.flatMap_nil, List.map_cons, List.map_nil,
-        List.cons_append, List.nil_append, List.append_nil, List.mem_cons, List.not_mem_nil, or_false] at hb'
-      rcases hb' with rfl | rfl | rfl | rfl | rfl | rfl | rfl | rfl | rfl | rfl <;>
-        simp [tNUMBER, tCOMPLEMENT, tSPACE, tCOLON] at hm
+    · have := hz geoPrefix (by simp); simp [hm] at this
+    · have := hz a (by simp [ha]); simp [hm] at this
+    · have := hz b (by simp [hall b hb]); simp [hm] at this
   exact C12LR_montepy (LrTables.cellParser, Grammar.cellParser) (by simp [classes]) _ ps h0 hr
 
 /-- non-vacuity: `1 0 -1 2:#3 : 4` is in the fragment -/
